@@ -320,17 +320,29 @@ impl<'a, R: 'a + InnerReaderTrait> LayerReader<'a, R> for CompressionLayerReader
                 let len = u64::from(inner.read_u32::<LittleEndian>()?);
 
                 // Read SizesInfo
-                inner.seek(SeekFrom::Start(pos - len))?;
-                self.sizes_info = match bincode::options()
+                // The footer cannot be longer than what precedes its length
+                let data_end = pos.checked_sub(len).ok_or(Error::DeserializationError)?;
+                inner.seek(SeekFrom::Start(data_end))?;
+                let sizes_info: SizesInfo = match bincode::options()
                     .with_limit(BINCODE_MAX_DESERIALIZE)
                     .with_fixint_encoding()
                     .deserialize_from(inner.take(len))
                 {
-                    Ok(sinfo) => Some(sinfo),
+                    Ok(sinfo) => sinfo,
                     _ => {
                         return Err(Error::DeserializationError);
                     }
                 };
+                // Do not trust the sizes: there is at least one block (the
+                // last one), blocks are located before the footer and the last
+                // block is not bigger than the others
+                if sizes_info.compressed_sizes.is_empty()
+                    || sizes_info.get_compressed_size() > data_end
+                    || sizes_info.last_block_size > UNCOMPRESSED_DATA_SIZE
+                {
+                    return Err(Error::DeserializationError);
+                }
+                self.sizes_info = Some(sizes_info);
 
                 Ok(())
             }
